@@ -1,4 +1,82 @@
-(* theorems for C02 are being added (see SMP/) *)
+(* C02 - Operations last exactly their configured duration (+ outage). One-step exactness of every
+   handler that writes an operation record; the composition over a whole history additionally uses the
+   clock invariant of C12 (no event fires late) and, for machines, the phase invariant (partial, see
+   DESIGN.md). *)
 From Coq Require Import List ZArith Bool.
-Theorem C02_placeholder : True. Proof. exact I. Qed.
-Print Assumptions C02_placeholder.
+From JSL Require Import Base.Res Base.ListX SM.Types SM.Util SM.Handler SM.Step SM.Inv
+  SMP.Post SMP.PostApply SMP.Offers SMP.Clock.
+Import ListNotations.
+
+(* SETUP->WORKING: the operation is stamped start = now, planned end = now + d where d is the configured
+   duration, or for a stochastic duration the value sampled at this very moment (update-then-read) *)
+Theorem C02_processing_starts_exact :
+  forall sigma i x tr m ms x',
+    tr_comp tr = CM m -> nth_error (s_machs x) m = Some ms -> m_st ms = MSetup ->
+    apply_transition sigma i x tr = Ok x' ->
+    exists j jb k oc d,
+      tr_job tr = Some j /\ nth_error (s_jobs x) j = Some jb /\ first_not_done jb = Some k
+      /\ get_opcfg i j k = Ok oc /\ tc_read (s_sto x') (oc_dur oc) = Ok d
+      /\ nth_error (s_machs x') m = Some (mkMachine MWorking (Time (s_now x + d)%Z) (m_pre ms) (m_in ms) (m_post ms) (m_tool ms) (m_out ms))
+      /\ nth_error (s_jobs x') j = Some (set_op jb k (mkOp m (Time (s_now x)) (Time (s_now x + d)%Z) OProc))
+      /\ s_now x' = s_now x /\ mem_nat j (b_store (m_in ms)) = true.
+Proof.
+  intros sigma i x tr m ms x' Hc Hm Hst H.
+  destruct (apply_machine sigma i x tr m ms x' Hc Hm H) as [[E _]|[[_ [_ Hh]]|[[E _]|[E _]]]]; try congruence.
+  eapply post_setup_working; eauto.
+Qed.
+Print Assumptions C02_processing_starts_exact.
+
+(* WORKING->OUTAGE (end of processing): the planned end is extended by exactly the longest outage that
+   becomes active now (0 if none), the machine is blocked until then *)
+Theorem C02_outage_extends_exact :
+  forall sigma i x tr m ms x',
+    tr_comp tr = CM m -> nth_error (s_machs x) m = Some ms -> m_st ms = MWorking ->
+    apply_transition sigma i x tr = Ok x' ->
+    exists mc outs sto' occ_for j jb k o,
+      nth_error (i_machs i) m = Some mc
+      /\ new_outage_states sigma (s_now x) (s_sto x) (mc_out mc) (m_out ms) = Ok (outs, sto')
+      /\ occupied_time outs = Ok occ_for
+      /\ tr_job tr = Some j /\ nth_error (s_jobs x) j = Some jb /\ first_proc jb = Some k /\ nth_error (j_ops jb) k = Some o
+      /\ nth_error (s_machs x') m = Some (mkMachine MOutage (Time (s_now x + occ_for)%Z) (m_pre ms) (m_in ms) (m_post ms) (m_tool ms) outs)
+      /\ nth_error (s_jobs x') j = Some (set_op jb k (set_op_end o (Time (s_now x + occ_for)%Z)))
+      /\ s_now x' = s_now x.
+Proof.
+  intros sigma i x tr m ms x' Hc Hm Hst H.
+  destruct (apply_machine sigma i x tr m ms x' Hc Hm H) as [[E _]|[[E _]|[[_ [_ Hh]]|[E _]]]]; try congruence.
+  eapply post_working_outage; eauto.
+Qed.
+Print Assumptions C02_outage_extends_exact.
+
+(* OUTAGE->IDLE (release): the operation becomes DONE with end = now and keeps its start *)
+Theorem C02_completion_exact :
+  forall sigma i x tr m ms x',
+    tr_comp tr = CM m -> nth_error (s_machs x) m = Some ms -> m_st ms = MOutage ->
+    apply_transition sigma i x tr = Ok x' ->
+    exists j jb k o,
+      hd_error (b_store (m_in ms)) = Some j /\ nth_error (s_jobs x) j = Some jb
+      /\ first_proc jb = Some k /\ nth_error (j_ops jb) k = Some o
+      /\ (exists jb', nth_error (s_jobs x') j = Some jb' /\ j_loc jb' = BPost m
+            /\ j_ops jb' = upd (j_ops jb) k (mkOp (o_mach o) (o_start o) (Time (s_now x)) ODone))
+      /\ s_now x' = s_now x.
+Proof.
+  intros sigma i x tr m ms x' Hc Hm Hst H.
+  destruct (apply_machine sigma i x tr m ms x' Hc Hm H) as [[E _]|[[E _]|[[E _]|[_ [_ Hh]]]]]; try congruence.
+  destruct (post_outage_idle i x tr m ms x' Hm Hh) as (j & jb & k & o & H1 & H2 & H3 & H4 & _ & H5 & H6).
+  exists j, jb, k, o. repeat split; auto.
+Qed.
+Print Assumptions C02_completion_exact.
+
+(* the outage time is never negative *)
+Theorem C02_outage_nonneg :
+  forall now outs v, Forall (oact_fresh now) outs -> occupied_time outs = Ok v -> (0 <= v)%Z.
+Proof. exact occupied_time_nonneg. Qed.
+
+(* timed machine transitions are never created before they are due *)
+Theorem C02_not_early :
+  forall i now m ms tr, timed_machine i now m ms = Ok (Some tr) -> m_st ms <> MIdle ->
+    exists z, m_occ ms = Time z /\ (z <= now)%Z.
+Proof.
+  intros i now m ms tr H Hs. destruct (timed_machine_spec i now m ms tr H) as [[z [j [Ho [Hz _]]]]|[c [j [Hi _]]]].
+  - eauto.
+  - congruence.
+Qed.
